@@ -578,11 +578,23 @@ func ownAdvertRules(r *engine.Report, p *engine.Program) {
 		maxIdle := p.Field("netceptor", "Netceptor", "maxConnectionIdleTime")
 		cancelF := p.Field("netceptor", "connInfo", "CancelFunc")
 		var since *ssa.Call
-		for _, ci := range callsTo(aging, "time.Since") {
-			if f, _ := engine.FieldOfLoad(ci.Common().Args[0]); f == lrd {
-				since, _ = ci.(*ssa.Call)
+		agingFn := aging // the function holding the idle test: monitorConnectionAging or a private helper of it
+		cands := []*ssa.Function{aging}
+		for _, ci := range engine.CallsIn(aging) {
+			if c := ci.Common().StaticCallee(); c != nil && inPkg(c, "netceptor") && len(c.Blocks) > 0 && privateHelperOf(p, c, map[string]bool{"(*netceptor.Netceptor).monitorConnectionAging": true}) != "" {
+				cands = append(cands, c)
 			}
 		}
+		for _, f := range cands {
+			for _, ci := range callsTo(f, "time.Since") {
+				if fl, _ := engine.FieldOfLoad(ci.Common().Args[0]); fl == lrd {
+					since, _ = ci.(*ssa.Call)
+					agingFn = f
+				}
+			}
+		}
+		caller := aging
+		aging := agingFn
 		ok, why := since != nil, "no time.Since(connInfo.lastReceivedData) found"
 		if ok {
 			var collect ssa.Instruction
@@ -638,13 +650,30 @@ func ownAdvertRules(r *engine.Report, p *engine.Program) {
 				}
 				// every collected func is called: a range over the collected map whose element is called
 				called := false
-				for _, ci := range engine.CallsIn(aging) {
-					if lk, isL := engine.Unwrap(ci.Common().Value).(*ssa.Lookup); isL && engine.Unwrap(lk.X) == engine.Unwrap(collect.(*ssa.MapUpdate).Map) {
+				isCollected := func(m ssa.Value) bool {
+					m = engine.Unwrap(m)
+					if m == engine.Unwrap(collect.(*ssa.MapUpdate).Map) {
+						return true
+					}
+					// the map returned by the helper that collected
+					if c, isC := m.(*ssa.Call); isC && c.Common().StaticCallee() == aging && caller != aging {
+						for _, ret := range engine.Returns(aging) {
+							for _, res := range ret.Results {
+								if engine.Unwrap(res) == engine.Unwrap(collect.(*ssa.MapUpdate).Map) {
+									return true
+								}
+							}
+						}
+					}
+					return false
+				}
+				for _, ci := range engine.CallsIn(caller) {
+					if lk, isL := engine.Unwrap(ci.Common().Value).(*ssa.Lookup); isL && isCollected(lk.X) {
 						called = true
 					}
 					if e, isE := engine.Unwrap(ci.Common().Value).(*ssa.Extract); isE && e.Index == 2 {
 						if nx, isN := e.Tuple.(*ssa.Next); isN {
-							if rg, isR := nx.Iter.(*ssa.Range); isR && engine.Unwrap(rg.X) == engine.Unwrap(collect.(*ssa.MapUpdate).Map) {
+							if rg, isR := nx.Iter.(*ssa.Range); isR && isCollected(rg.X) {
 								called = true
 							}
 						}
